@@ -402,7 +402,7 @@ func (g *Gen) Program(lane string) *Program {
 	case "space-classes":
 		g.header(c, false, false)
 		for k := 1 + g.R.Intn(4); k > 0; k-- {
-			c.lines = append(c.lines, g.pick("", "a", "x+", `\d`)+g.pick(`\s`, `[\s]`, `[\sa]`, `[\s-]`, `[^\s]`, `\S`, `[\s\d]`, `\s+`, `\s*`, `[\sa-c]`, `[\w\s]`)+g.pick("", "b", "y?", `\.`))
+			c.lines = append(c.lines, g.pick("", "a", "x+", `\d`)+g.pick(`\s`, `[\s]`, `[\sa]`, `[\s-]`, `[^\s]`, `\S`, `[\s\d]`, `\s+`, `\s*`, `[\sa-c]`, `[\w\s]`, `[\s -/]`, `[\s!-/]`, `[^\s -~]`, `[\s -!]`)+g.pick("", "b", "y?", `\.`))
 		}
 		g.body(c, 0, "", g.R.Intn(3))
 	default:
